@@ -166,6 +166,40 @@ def run_job(job):
                 if len(values) >= 1:
                     res.nt("%s|%s|%s|%d" % (",".join(sorted(fns)), inner, where, len(values)))
                 res.sample({"query": q, "cells": [c.decode() for c in out], "rows": len(values)}, cap=3)
+            # an aggregate's value does not depend on the aggregates next to it: the same columns interleaved with aggregates over
+            # another expression print what they print here, and so do the others compared with their own query
+            if not bad and rng.random() < 0.35:
+                inner2 = rng.choice([x for x in ("size", "hardlinks", "uid", "length(name)", "gid", "size + 1") if x != inner])
+                cols2 = ["%s(%s)" % (rng.choice(["min", "max", "sum", "avg", "MAX", "Min", "count"]), inner2) for _ in range(rng.randint(1, 3))]
+                qb = "%s from %s%s into list" % (", ".join(cols2), frm, wtxt)
+                rb = run(qb)
+                mixed = []
+                ia, ib = list(cols), list(cols2)
+                while ia or ib:
+                    src = rng.choice([x for x in (ia, ib) if x])
+                    mixed.append(("a" if src is ia else "b", src.pop(0)))
+                if rng.random() < 0.5:
+                    mixed.reverse()
+                qm = "%s from %s%s into list" % (", ".join(c for _, c in mixed), frm, wtxt)
+                rm_ = run(qm)
+                if all(x.verdict == "ok" and x.rc == 0 and not x.err and not x.panicked for x in (rb, rm_)):
+                    cb = rb.out.split(b"\0")[:-1]
+                    cm = rm_.out.split(b"\0")[:-1]
+                    alone = {}
+                    for c, v in list(zip(cols, out)) + list(zip(cols2, cb)):
+                        alone.setdefault(c, v)
+                    if len(cb) != len(cols2) or len(cm) != len(mixed):
+                        res.viol("`%s` / `%s`: %d and %d cells for %d and %d aggregates" % (qb, qm, len(cb), len(cm), len(cols2), len(mixed)),
+                                 {"query": qm, "query_b": qb})
+                    else:
+                        diff = [(c, alone[c].decode(), v.decode()) for (_, c), v in zip(mixed, cm) if alone[c] != v]
+                        if diff:
+                            res.viol("%s prints %r in `%s` and %r when its own column set is selected alone" % (diff[0][0], diff[0][2], qm, diff[0][1]),
+                                     {"query": qm, "query_a": q, "query_b": qb, "differences": diff[:4]})
+                        else:
+                            res.count("mixed_argument_select_lists_compared")
+                elif any(x.verdict == "busy" or (x.verdict == "ok" and (x.panicked or x.rc != 0 or x.err)) for x in (rb, rm_)):
+                    res.viol("`%s` or `%s` fails: %s / %s" % (qb, qm, rb.brief(), rm_.brief()), {"query": qm, "query_b": qb})
         # history: in interactive mode (`fselect -i`) the same queries run in one process, one after the other - each must
         # print what it prints when run alone
         if len(pool) >= 2 and job.get("session", True):
@@ -194,6 +228,6 @@ def main(chk):
              "Fraction-exact textbook value. Non-trivial = >= 1 matching row; distinct by (function set, inner expression, where, rows).",
         assumptions=["sample statistics over < 2 rows and MIN/MAX/AVG over 0 rows are don't-care (the statement does not define them)",
                      "real-valued aggregates are not judged when |SUM| >= 2^53", "line_count queries are restricted to regular files"],
-        require={"fn_rows": 25, "fractional_means_checked": 5},
+        require={"fn_rows": 25, "fractional_means_checked": 5, "mixed_argument_select_lists_compared": 20},
         exhaustive=({"aggregate_subsets": len(subsets)} if subsets else None),
     )
